@@ -40,7 +40,8 @@ namespace nmtools::index
 
             auto n_channel_per_group = at(src_shape,src_channel_axis) / groups;
 
-            at(result,dst_group_axis)   = groups;
+            // (.., groups, 1, C/groups, *spatial): the group axis precedes the (broadcast) per-group output axis
+            at(result,dst_group_axis-1) = groups;
             at(result,dst_group_axis+1) = n_channel_per_group;
 
             for (nm_index_t i=1; i<=nm_index_t(n_planes); i++) {
@@ -83,10 +84,11 @@ namespace nmtools::index
                 // TODO: check if divisible
                 at(result,i) = at(src_shape,i);
             }
-            auto group_axis = meta::ct_v<1>;
-            auto outch_axis = meta::ct_v<0>;
+            // (groups, O/groups, C/groups, *kernel): output channel o belongs to group o / (O/groups)
+            auto group_axis = meta::ct_v<0>;
+            auto outch_axis = meta::ct_v<1>;
             at(result,group_axis) = groups;
-            at(result,outch_axis) = at(src_shape,outch_axis) / groups;
+            at(result,outch_axis) = at(src_shape,meta::ct_v<0>) / groups;
         }
 
         return result;
